@@ -26,7 +26,7 @@ ASSUMPTIONS = [
     "all instants are dyadic rationals, so 'exactly at expiry' is an exact float comparison",
 ]
 PROBES = ["c16.add_during_stalled_flush_then_reset", "c16.add_during_teardown_after_failed_flush", "c16.requeued_victim_expired", "c16.down_by_write_fault", "c16.add_at_connect_notification", "c16.expired_during_slow_flush", "c16.overflow", "c16.expiry_made_room", "c16.send_at_exact_expiry", "c16.not_open", "c16.expired_never_sent", "c16.connect_at_exact_expiry"]
-LIFETIMES = [0.25, 0.5, 1.0, 2.0, 5.0, 30.0]
+LIFETIMES = [0.0, 0.25, 0.5, 1.0, 2.0, 5.0, 30.0]  # 0.0: expired the instant it is accepted (the edge of the lifetime domain)
 
 
 def budget(tier: str) -> int:
